@@ -58,6 +58,33 @@ def programs(tier, seed):
             out.append(dict(n=4, c=c, l=[0, 0, 0, 0], u=[1, 2, 1, 2], rows=copy.deepcopy(rows), bools=[False] * 4, dup=0))
     # no rows at all
     out.append(dict(n=2, c=[1, -1], l=[0, 0], u=[1, 2], rows=[], bools=[False, False], dup=0))
+    # mapping layout: rows in reversed order; a variable without mapping row (inert: zero cost, in no row) placed BEFORE boolean variables
+    extra = []
+    # boolean variables whose 0/1 restriction BINDS (negative cost, upper bound 2, slack rows): a lost or misplaced flag changes the optimum
+    for bl in ([True, False, False], [False, True, False], [False, False, True], [True, False, True]):
+        for c in ([-2, -1, -3], [-1, -1, -1]):
+            out.append(dict(n=3, c=c, l=[0, 0, 0], u=[2, 2, 2], rows=[dict(a=[1, 1, 1], b=6, cls='U'), dict(a=[1, 1, 0], b=1, cls='L')], bools=list(bl), dup=0, binding=True))
+    withbool = [q for q in out if any(q['bools'])]
+    withbool = [q for q in withbool if q.get('binding')] + [q for q in withbool if not q.get('binding')]
+    # programs whose boolean variables have bounds beyond 0/1 (there a lost or misplaced flag changes the feasible set) come first
+    nonbin = [q for q in withbool if any(b and (u > 1 or l < 0) for b, l, u in zip(q['bools'], q['l'], q['u']))]
+    for p in (nonbin + [q for q in withbool if q not in nonbin])[:24]:
+        r = copy.deepcopy(p)
+        r['maporder'] = 'reversed'
+        extra.append(r)
+        g = copy.deepcopy(p)
+        # prepend an inert continuous variable 0: shifts every other variable by one
+        g['n'] = p['n'] + 1
+        g['c'] = [0] + p['c']
+        g['l'] = [0] + p['l']
+        g['u'] = [3] + p['u']
+        g['bools'] = [False] + p['bools']
+        g['rows'] = [dict(a=[0] + rr['a'], b=rr['b'], cls=rr['cls']) for rr in p['rows']]
+        g['maporder'] = 'gap'
+        g['gapvar'] = 0
+        g['dup'] = 0
+        extra.append(g)
+    out += extra
     # keep every feasible program and one infeasible program for every three feasible ones (the mix is decided by
     # plain enumeration here only to balance the family; the verdicts come from TLC)
     feas = [p for p in out if brute(p) is not None]
@@ -92,6 +119,11 @@ def build_op(p):
         m = pd.concat([m, m.iloc[:max(1, n - 1)]])
     elif p['dup'] == 2:    # duplicated rows BEFORE
         m = pd.concat([m.iloc[1:], m])
+    if p.get('maporder') == 'reversed':      # mapping rows not in the order of the variables (the index still names the variable)
+        m = m.iloc[::-1]
+    elif p.get('maporder') == 'gap':         # a continuous variable without any mapping row (zero cost, in no row): e.g. an order outside the horizon
+        g = p['gapvar']
+        m = m[m.index != g]
     if p['rows']:
         A = sp.lil_matrix(np.array([r['a'] for r in p['rows']], float))
         b = np.array([r['b'] for r in p['rows']], float)
